@@ -290,6 +290,7 @@ fn synthetic_templates() -> Vec<(&'static str, Vec<String>)> {
     ("virtual-keyboard", entry("0006", Some("py-evdev-uinput Keyboard"), Some("/devices/virtual/input/input40"), "sysrq kbd event25 leds", Some("120013"), Some(MASK_AT_KEYBOARD), &["B: MSC=10", "B: LED=7"])),
     ("totalmapper-output", entry("0003", Some("totalmapper"), Some("/devices/virtual/input/input41"), "sysrq kbd event26", Some("3"), Some("7fffffffffffffff ffffffffffffffff ffffffffffffffff ffffffffffffffff ffffffffffffffff ffffffffffffffff ffffffffffffffff ffffffffffffffff ffffffffffffffff ffffffffffffffff ffffffffffffffff fffffffffffffffe"), &[])),
     ("cros-ec", entry("0019", Some("cros_ec"), Some("/devices/platform/GOOG0004:00/input/input3"), "sysrq kbd event3", Some("100013"), Some(MASK_AT_KEYBOARD), &["B: MSC=10"])),
+    ("bluetooth-uhid-keyboard", entry("0005", Some("Keychron K2"), Some("/devices/virtual/misc/uhid/0005:05AC:024F.0009/input/input43"), "sysrq kbd event28 leds", Some("120013"), Some(MASK_AT_KEYBOARD), &["B: MSC=10", "B: LED=1f"])),
     ("almost-virtual", entry("0003", Some("Bluetooth Keyboard"), Some("/devices/virtual/inputx/input42"), "sysrq kbd event27 leds", Some("120013"), Some(MASK_AT_KEYBOARD), &[])),
   ]
 }
@@ -388,7 +389,7 @@ fn mutate(rng: &mut Rng, lines: &mut Vec<String>) -> &'static str {
     6 => { let ev = *rng.pick(EV_VARIANTS); set_line(lines, "B: EV=", format!("B: EV={}", ev)); "ev" },
     7 => { let g = *rng.pick(GARBAGE_LINES); let j = rng.below(lines.len() + 1); lines.insert(j, g.to_string()); "garbage-line" },
     8 => { let m = random_key_mask(rng); let j = rng.below(lines.len() + 1); lines.insert(j, format!("B: KEY={}", m)); "extra-key-line" },
-    9 => { let s = *rng.pick(&["/devices/virtual/input/input77", "/devices/virtual/input/", "/devices/virtual/input", "/devices/virtual/inputx/input3", " /devices/virtual/input/input5", "/devices/platform/i8042/serio0/input/input2", "", "/devices//platform/x", "/devices/\u{e9}/input9"]); set_line(lines, "S: Sysfs=", format!("S: Sysfs={}", s)); "sysfs" },
+    9 => { let s = *rng.pick(&["/devices/virtual/input/input77", "/devices/virtual/input/", "/devices/virtual/input", "/devices/virtual/inputx/input3", "/devices/virtual/misc/uhid/0005:046D:B342.0003/input/input25", " /devices/virtual/input/input5", "/devices/platform/i8042/serio0/input/input2", "", "/devices//platform/x", "/devices/\u{e9}/input9"]); set_line(lines, "S: Sysfs=", format!("S: Sysfs={}", s)); "sysfs" },
     10 => { if let Some(i) = first_index(lines, "N: Name=") { lines.remove(i); } "drop-name" },
     11 => { if let Some(i) = first_index(lines, "S: Sysfs=") { lines.remove(i); } "drop-sysfs" },
     12 => { if let Some(i) = first_index(lines, "B: EV=") { lines.remove(i); } "drop-ev" },
@@ -975,6 +976,21 @@ fn os_glue_case(cx: &mut Ctx, rng: &mut Rng, os: &OsGlue, g: &GenText) {
           cx.stats.os_glue_devices_listed += d.len() as u64;
           cx.stats.os_glue_virtual_skipped += dev.iter().filter(|x| x.0.starts_with(VIRTUAL_PREFIX)).count() as u64;
           cx.stats.os_glue_no_event_node += dev.iter().filter(|x| !x.0.starts_with(VIRTUAL_PREFIX) && !resolve.iter().any(|r| r.0 == x.0)).count() as u64;
+          // C16 directly on what the real listing functions return: a keyboard-like entry with an event node whose sysfs
+          // path is NOT under the virtual-input tree is listed (both paths), one under it never is
+          for x in dev.iter() {
+            if dev.iter().filter(|y| y.0 == x.0).count() != 1 { continue; }
+            let node = match resolve.iter().find(|r| r.0 == x.0) { Some(r) => r.1.clone(), None => continue };
+            if resolve.iter().filter(|r| r.1 == node).count() != 1 { continue; }
+            let virt = x.0.starts_with(VIRTUAL_PREFIX);
+            let in_k = k.iter().any(|e| e.0 == node);
+            let in_d = d.iter().any(|e| e.0 == node);
+            if in_k != (x.2 && !virt) || in_d != !virt {
+              cx.push_finding(Finding { kind: "property".into(), check: "C16_os_glue_select".into(), text: text.clone(), request: "-".into(),
+                implementation: format!("entry {:?} (node {}): listed by list_keyboards={} by list_input_devices={}", x, node, in_k, in_d),
+                model: format!("expected list_keyboards={} list_input_devices={} (keyboard-like={}, under {}={})", x.2 && !virt, !virt, x.2, VIRTUAL_PREFIX, virt), extra: extra.clone() });
+            }
+          }
           cx.expect(KIND_LISTK, text, extra.clone(), format!("LISTK {} {}", enc(text), enc_pairs(&resolve)), show_kbds(&k));
           cx.expect(KIND_LISTD, text, extra.clone(), format!("LISTD {} {}", enc(text), enc_pairs(&resolve)), show_devs(&d));
         },
